@@ -1,22 +1,22 @@
-\* thorough: two nodes, one client, a services link with one pseudo-client, longer horizon; safety, exhaustive
+\* quick: one node, two clients (one may take the other's nickname once it is free); safety, exhaustive
 SPECIFICATION Spec
 CONSTANTS
     n1 = n1  n2 = n2  n3 = n3  c1 = c1  c2 = c2  k1 = k1  p1 = p1
-    Nodes = {n1, n2}
-    Clients = {c1}
-    Links = {k1}
-    Pseudo = {p1}
-    Owner <- MCOwner
+    Nodes = {n1}
+    Clients = {c1, c2}
+    Links = {}
+    Pseudo = {}
+    Owner <- MCNoOwner
     Interval = 2
     Exps = {1, 2}
     InitExp = 1
     MaxTime = 4
     MaxLag = 1
-    MaxChanges = 1
+    MaxChanges = 0
     MaxPend = 1
     MaxConfigs = 1
     None = None
-SYMMETRY SymNodes2
+SYMMETRY SymClients
 INVARIANTS TypeOK OnlyIdleExpire ActiveNeverExpires ExpiredSessionGone NickUnique
 PROPERTIES FollowersNeverPropose
 CHECK_DEADLOCK FALSE
